@@ -8,6 +8,9 @@ def e2e_oracle(chk, r):
     lim = r["limits"]
     H = r["H"]
     clamped = abs(H - lim["min_height"]) < 1e-9 or abs(H - lim["max_height"]) < 1e-9
+    ref = r.get("reference")
+    if ref is not None and not clamped and abs(ref["excess"]) > TOL:
+        chk.violation("end-to-end", r["cfg"], {"H": H, "excess_at_H_from_the_requested_inputs": ref["excess"]}, "unclamped returned height makes the excess zero within 1e-3 (field and height simulated from the requested inputs)")
     if not clamped and abs(r["resim_excess"]) > TOL:
         chk.violation("end-to-end", r["cfg"], {"H": H, "excess_at_H": r["resim_excess"]}, "unclamped returned height makes the excess zero within 1e-3")
     if r.get("pred_excess_at_hmax") is not None and r["pred_excess_at_hmax"] < 0:
